@@ -54,7 +54,7 @@ from valjean.cosette.task import TaskStatus
 from valjean.cambronne import common
 from vlib.core import Failure, HarnessError, Outcome, valjean_frame
 from vlib import envfault
-from vlib.envfault import PLAN, Killed, same, diff_keys, materialise, TS_TAG
+from vlib.envfault import PLAN, Killed, same, diff_keys, materialise, TS_TAG, OBJ_TAG
 
 envfault.install(envmod)      # the `open` seam of valjean/cosette/env.py
 
@@ -175,7 +175,21 @@ def _arrays():
 _LEAF = st.one_of(
     st.none(), st.booleans(), st.integers(-2**70, 2**70), st.integers(-3, 3),
     st.floats(allow_nan=True, allow_infinity=True), st.text(_TXT, max_size=12),
-    st.binary(max_size=24), st.sampled_from(STATUSES).map(lambda s: (TS_TAG, s)), _arrays())
+    st.binary(max_size=24), st.sampled_from(STATUSES).map(lambda s: (TS_TAG, s)), _arrays(),
+    # instances of classes outside builtins / numpy / valjean (standard library value types, a
+    # class of the job's own module): a task may store any picklable object
+    st.one_of(
+        st.tuples(st.just(OBJ_TAG), st.just('fraction'),
+                  st.tuples(st.integers(-99, 99), st.integers(1, 9))),
+        st.tuples(st.just(OBJ_TAG), st.just('decimal'), st.sampled_from(['1.10', '-0', '3E+2', '1E-30'])),
+        st.tuples(st.just(OBJ_TAG), st.just('timedelta'), st.integers(0, 10 ** 6)),
+        st.tuples(st.just(OBJ_TAG), st.just('path'), st.sampled_from(['out/run.res', '/abs', '.'])),
+        st.tuples(st.just(OBJ_TAG), st.just('score'),
+                  st.tuples(st.floats(0.5, 1.5), st.floats(0.0, 0.01))),
+        st.tuples(st.just(OBJ_TAG), st.just('ordereddict'), st.lists(st.integers(0, 5), max_size=3,
+                                                                       unique=True).map(tuple)),
+        st.tuples(st.just(OBJ_TAG), st.just('frozenset'), st.lists(st.integers(0, 5), max_size=3,
+                                                                     unique=True).map(tuple))))
 _DKEY = st.one_of(st.text(_TXT, max_size=4), st.integers(-5, 5))
 _PAYLOAD = st.recursive(
     _LEAF,
